@@ -8,6 +8,7 @@
 -/
 import Tranp.Lemmas.Quotation
 import Tranp.Props.C15
+import Tranp.Lemmas.CacheShape
 
 namespace Tranp.C16
 open Tranp Tranp.Lark Tranp.Quote Tranp.Hull
@@ -241,5 +242,40 @@ theorem collector (source line : Str) (toks : List Span) (steps : Int) (sm : Spa
 
 example : markedCols (lineMark (causeRange ['a', ' ', '=', ' ', '@'] ⟨0, 4, 0, 5⟩)) = [4]
     ∧ (Str.splitOn '\n' ['a', ' ', '=', ' ', '@', '\n'])[(0 : Int).toNat]? = some ['a', ' ', '=', ' ', '@'] := by decide
+
+/-! ### the tie: `__build_quotation` as read from the source on every run (Generated/LarkCache.lean) -/
+
+open Tranp.Generated in
+/-- The guard of `ErrorRender.__build_quotation` as the translator reads it — its disjuncts, on the UNSHIFTED span, with
+    Python's short-circuit `or` — says "begin line < 1 or begin column < 1" … -/
+theorem guard_generated (sm : SM) :
+    Shape.noPositionBy sm LarkCache.guardDisjuncts = (do let a ← lt1 sm.bl; if a then pure true else lt1 sm.bc) :=
+  Shape.noPosition_generated sm
+
+open Tranp.Generated in
+/-- … for integer positions: exactly when the node has no position (lines and columns are 1-based) … -/
+theorem guard_meaning (bl bc : Int) (el ec : Pos) :
+    Shape.noPositionBy ⟨some bl, some bc, el, ec⟩ LarkCache.guardDisjuncts = .ok (decide (bl < 1 ∨ bc < 1)) := by
+  rw [Shape.noPosition_generated]
+  by_cases h1 : bl < 1 <;> by_cases h2 : bc < 1 <;> simp [lt1, h1, h2, bind, Except.bind, pure, Except.pure]
+
+open Tranp.Generated in
+/-- … the shift tuple read from the source is the model's minus-one shift … -/
+theorem shift_generated (sm : SM) : Shape.shiftBy LarkCache.shiftFields sm = shift sm := Shape.shift_generated sm
+
+open Tranp.Generated in
+/-- … and the whole `__build_quotation`, evaluated from the generated tables in the statement order found in the source
+    (file-exists test, guard, shift), is the model's `buildQuotation` — to which `mark`, `quotation` … apply. -/
+theorem buildQuotation_generated (ex : Bool) (fp content : Str) (sm : Except Err SM) :
+    Shape.buildQuotationBy LarkCache.quotationOrder LarkCache.guardDisjuncts LarkCache.shiftFields ex fp content sm
+      = buildQuotation ex fp content sm := Shape.buildQuotation_generated ex fp content sm
+
+open Tranp.Generated in
+/-- the parser is built with `propagate_positions=True` and the Python indenter (the interface hypothesis of Model/Hull.lean is
+    about that configuration) -/
+theorem lark_options :
+    (["propagate_positions".toList, "True".toList] ∈ LarkCache.larkKwargs.map (fun kv => [kv.1, kv.2]))
+    ∧ (["postlex".toList, "PythonIndenter()".toList] ∈ LarkCache.larkKwargs.map (fun kv => [kv.1, kv.2])) := by
+  constructor <;> simp [LarkCache.larkKwargs]
 
 end Tranp.C16
